@@ -100,12 +100,15 @@ package simpleshell
 //@   ghost waited bool = false
 //@   ghost waitErr error = nil
 //@   ghost closed bool = false
+//@   ghost relayErr error = nil
+//@   ghost nRelayWait int = 0
+//@   on call errgroup.Group.Wait(g) (e): relayErr = e; nRelayWait++
 //@   on call exec.Cmd.Start(cmd) (e): assert(cmd == c.cmd && !started && !startFailed, "started_once"); started = e == nil; startFailed = e != nil
 //@   on call io.Copy(dst, src) (n, e): assert(dst == c.outw && started && !closed && (src == c.sout || src == c.serr), "relays_a_command_pipe_into_the_output_stream"); if src == c.sout { drainedOut = true } else { drainedErr = true }
 //@   on enter exec.Cmd.Run(cmd): assert(false, "typestate_Run_waits_while_the_pipes_may_still_be_read")
 //@   on enter exec.Cmd.Wait(cmd): assert(cmd == c.cmd && started && drainedOut && drainedErr && !waited, "typestate_Wait_only_after_both_pipe_copies_finished")
 //@   on call exec.Cmd.Wait(cmd) (e): waited = true; waitErr = e
-//@   on enter io.PipeWriter.CloseWithError(w, e): assert(w == c.outw && !closed && (startFailed || (drainedOut && drainedErr)), "output_stream_ends_only_after_everything_was_relayed"); assert(startFailed || waited, "output_stream_ends_only_once_the_command_has_exited"); closed = true
+//@   on enter io.PipeWriter.CloseWithError(w, e): assert(w == c.outw && !closed && (startFailed || (drainedOut && drainedErr)), "output_stream_ends_only_after_everything_was_relayed"); assert(startFailed || waited, "output_stream_ends_only_once_the_command_has_exited"); assert(imp(!startFailed, nRelayWait == 1 && e == relayErr), "a_relaying_failure_ends_the_output_stream_as_that_error_not_as_a_clean_end"); closed = true
 //@   ensures ran_to_completion: imp(started, waited && closed && drainedOut && drainedErr && err == waitErr)
 //@   ensures start_failure_reported: imp(startFailed, err != nil && closed)
 //@   ensures started_or_failed: started || startFailed
